@@ -903,3 +903,94 @@ package gmars
 //@   panics [C10][C05]
 //@   modifies nothing
 //@   ensures [C10][C06] result.2 == nil ==> result.0 <= 16 && result.1 <= 6
+
+// ---------------------------------------------------------------------------
+// compile.go: the assembler back end (C06, C03, C07)
+
+// functions of the symbol / expression machinery, not (yet) verified: assumed contracts
+//@ trusted (*compiler).expandExpression
+//@   modifies nothing
+//@ trusted evaluateExpression
+//@   modifies nothing
+//@   ensures result.1 == nil ==> 0 - 2147483648 <= result.0 && result.0 <= 2147483647
+//@ trusted (*compiler).loadSymbols
+//@   modifies c.values, c.labels, c.startExpr
+//@ trusted (*compiler).evaluateAssertions
+//@   modifies nothing
+//@ trusted buildReferenceGraph
+//@   modifies nothing
+//@ trusted graphContainsCycle
+//@   modifies nothing
+//@ trusted expandExpressions
+//@   modifies nothing
+
+// the value of an operand field: the expression value reduced into [0, M)
+//@ pure modM(v int, m int) = ite(v >= 0, v % m, (m - ((0 - v) % m)) % m)
+
+//@ func (*compiler).assembleLine
+//@   panics [C05][C06]
+//@   requires c != nil && c.m >= 1 && c.m <= 4294967296
+//@   modifies nothing
+//@   ensures [C06] result.1 == nil ==> wfI(result.0, c.m)
+//@   ensures [C06] result.1 == nil && c.config.Mode == ICWS88 ==> legal88(result.0)
+//@   ensures [C03] result.1 == nil && c.config.Mode != ICWS88 && in.amode == "" ==> result.0.AMode == ite(len(in.b) == 0 && result.0.Op == DAT, IMMEDIATE, DIRECT)
+//@   ensures [C03] result.1 == nil && c.config.Mode != ICWS88 && in.bmode == "" && len(in.b) != 0 ==> result.0.BMode == DIRECT
+// the lone-operand rule: DAT x == DAT #0, x ; any other opcode keeps x in the A-field with $0 in B
+//@   ensures [C03] result.1 == nil && len(in.b) == 0 && result.0.Op == DAT ==> result.0.AMode == IMMEDIATE && result.0.A == 0
+//@   ensures [C03] result.1 == nil && len(in.b) == 0 && result.0.Op != DAT ==> result.0.B == 0
+
+//@ func (*compiler).compile
+//@   panics [C05][C06]
+//@   requires c != nil && c.m >= 1 && c.m <= 4294967296 && c.m == c.config.CoreSize
+//@   modifies c.values, c.labels, c.startExpr, c.metadata
+//@   ensures [C05][C06] result.1 != nil ==> len(result.0.Code) == 0 && result.0.Start == 0
+//@   ensures [C06] result.1 == nil ==> codeWf(result.0, c.m)
+//@   ensures [C06] result.1 == nil ==> (0 <= result.0.Start && result.0.Start < len(result.0.Code)) || (len(result.0.Code) == 0 && result.0.Start == 0)
+//@   ensures [C06] result.1 == nil ==> len(result.0.Code) <= c.config.Length
+//@   ensures [C06] result.1 == nil && c.config.Mode == ICWS88 ==> codeLegal88(result.0)
+//@   loop 1
+//@     invariant codeWf2(code, c.m) && fresh(arr(code)) && (c.config.Mode == ICWS88 ==> codeLegal88s(code))
+//@     invariant 0 - 1 <= rangeindex && rangeindex < len(c.lines) && c.m >= 1 && c.m <= 4294967296
+//@     decreases len(c.lines) - rangeindex
+//@ pure codeWf2(code []Instruction, m int) = forall k :: 0 <= k && k < len(code) ==> wfI(code[k], m)
+//@ pure codeLegal88s(code []Instruction) = forall k :: 0 <= k && k < len(code) ==> legal88(code[k])
+
+// front end (lexer, FOR expander, symbol scanner, parser): goroutines, channels and maps are outside
+// the verified subset; assumed contracts (frames only)
+//@ trusted newLexer
+//@   modifies nothing
+//@   ensures fresh(result)
+//@ trusted (*lexer).Tokens
+//@   modifies nothing
+//@ trusted newBufTokenReader
+//@   modifies nothing
+//@   ensures fresh(result)
+//@ trusted ScanInput
+//@   modifies nothing
+//@ trusted ForExpand
+//@   modifies nothing
+//@ trusted newParser
+//@   modifies nothing
+//@   ensures fresh(result)
+//@ trusted (*parser).parse
+//@   modifies nothing
+
+//@ func newCompiler
+//@   panics [C05][C06]
+//@   modifies nothing
+//@   ensures [C05][C06] (result.1 == nil) != (result.0 == nil)
+//@   ensures [C06] result.1 == nil ==> fresh(result.0) && result.0.m == config.CoreSize && result.0.config == config && config.CoreSize >= 3
+
+//@ func CompileWarrior
+//@   panics [C05][C06]
+//@   requires cfgBounded(config)
+//@   modifies nothing
+// either an error or a warrior, never both
+//@   ensures [C05][C06] result.1 != nil ==> len(result.0.Code) == 0 && result.0.Start == 0
+//@   ensures [C06] result.1 == nil ==> codeWf(result.0, config.CoreSize) && len(result.0.Code) <= config.Length
+//@   ensures [C06] result.1 == nil ==> (0 <= result.0.Start && result.0.Start < len(result.0.Code)) || (len(result.0.Code) == 0 && result.0.Start == 0)
+//@   ensures [C06] result.1 == nil && config.Mode == ICWS88 ==> codeLegal88(result.0)
+// the FOR pass limit bounds the number of expansion passes
+//@   loop 1
+//@     invariant 0 <= depth && depth <= 12
+//@     decreases [C05] 13 - depth
